@@ -365,7 +365,9 @@ func genKey(t *rapid.T, kind string) *Val {
 
 // ---------- initial values ----------
 
-func genInit(t *rapid.T, kind string) Init {
+// genInit draws the (re)creation of a slot. exact: typed literals only get elements of exactly
+// the declared type (always succeeds); otherwise elements may need a conversion or be ill-typed.
+func genInit(t *rapid.T, kind string, exact bool) Init {
 	switch kind {
 	case "str":
 		return Init{How: "lit", S: pick(t, "inits", "hello", "abc", "", "a", "héllo", "日本語", "xy")}
@@ -390,6 +392,9 @@ func genInit(t *rapid.T, kind string) Init {
 				in.Elems[i] = genFloat(t)
 			default:
 				in.Elems[i] = genList(t, 0, genInt)
+			}
+			if !exact && kind != "us" {
+				in.Elems[i] = genElemFor(t, elemKind(kind))
 			}
 		}
 		return in
@@ -419,6 +424,10 @@ func genInit(t *rapid.T, kind string) Init {
 			default:
 				in.MK = append(in.MK, Val{K: "i", I: pick(t, "ki", int64(1), int64(2), int64(65), int64(0))})
 				in.MV = append(in.MV, genStr(t))
+			}
+			if !exact && kind != "um" {
+				in.MK[i] = *genKey(t, kind)
+				in.MV[i] = genElemFor(t, elemKind(kind))
 			}
 		}
 		return in
@@ -553,6 +562,19 @@ func genStep(t *rapid.T, kinds []string, slot int, fld string) Step {
 			if v.K == "m" || v.K == "msi" {
 				v = Val{K: "i", I: 1}
 			}
+			if rapid.Bool().Draw(t, "likely") {
+				// values that are likely present (zero values of make, small pool heads)
+				switch elemKind(kind) {
+				case "int":
+					v = Val{K: "i", I: pick(t, "inint", int64(0), int64(1), int64(65))}
+				case "float":
+					v = Val{K: "f", F: pick(t, "infloat", 0.5, 2.7)}
+				case "string":
+					v = Val{K: "s", S: pick(t, "instr", "", "a", "A")}
+				case "any":
+					v = pick(t, "inany", Val{K: "n"}, Val{K: "i", I: 0}, Val{K: "i", I: 1}, Val{K: "s", S: "a"}, Val{K: "s", S: ""}, Val{K: "b", B: true})
+				}
+			}
 			st.V = &v
 		case "alias":
 			st.W = pickDest()
@@ -567,7 +589,7 @@ func genStep(t *rapid.T, kinds []string, slot int, fld string) Step {
 				st.V = &v
 			}
 		case "new":
-			in := genInit(t, kind)
+			in := genInit(t, kind, rapid.Bool().Draw(t, "exact"))
 			st.Init = &in
 		case "mread":
 			st.Name = "a"
@@ -608,7 +630,7 @@ func genStep(t *rapid.T, kinds []string, slot int, fld string) Step {
 				st.V = &v
 			}
 		case "new":
-			in := genInit(t, kind)
+			in := genInit(t, kind, rapid.Bool().Draw(t, "exact"))
 			st.Init = &in
 		case "slice":
 			st.Form, st.I, st.J = "ij", &Idx{C: "abs", D: 0}, &Idx{C: "abs", D: 1}
@@ -652,7 +674,7 @@ func genStep(t *rapid.T, kinds []string, slot int, fld string) Step {
 		case "alias":
 			st.W = pickDest()
 		case "new":
-			in := genInit(t, kind)
+			in := genInit(t, kind, rapid.Bool().Draw(t, "exact"))
 			st.Init = &in
 		case "mread":
 			st.Name = "a"
@@ -697,7 +719,7 @@ func genStep(t *rapid.T, kinds []string, slot int, fld string) Step {
 		case "del":
 			st.Key = &Val{K: "s", S: "A"}
 		case "new":
-			in := genInit(t, kind)
+			in := genInit(t, kind, rapid.Bool().Draw(t, "exact"))
 			st.Init = &in
 		}
 	default: // scalar field: every container operation on it is ill-typed
@@ -752,7 +774,7 @@ func genCase(t *rapid.T) Case {
 	}
 	c := Case{Kinds: kinds}
 	for _, k := range kinds {
-		c.Inits = append(c.Inits, genInit(t, k))
+		c.Inits = append(c.Inits, genInit(t, k, true))
 	}
 	nsteps := rapid.IntRange(3, 25).Draw(t, "nsteps")
 	for i := 0; i < nsteps; i++ {
